@@ -553,6 +553,36 @@ Definition sfrag (s : schema) : bool :=
       && is_none allo && is_none anyo && is_none oneo && is_none no && is_none ref
   end.
 
+(* the object fragment of the theorems C09_merge_obj_*_partial: hereditarily
+     - no `$ref`, format, array keyword, allOf/anyOf/oneOf/not;
+     - type lists without `number` (finding C09-F1), enum/const of non-float scalars;
+     - additionalProperties absent / true / false (a schema there makes merge_additional defer an allOf wrapper);
+     - an object keyword group is guarded by `"type":"object"` (typify merges the group without looking at
+       the type: C09_merge_never_refuted_untyped);
+     - properties in the fragment again. *)
+Definition ap_bool (ap : option schema) : bool :=
+  match ap with
+  | None | Some (SBool _) => true
+  | _ => false
+  end.
+
+Definition all_object (ty : option (list itype)) : bool :=
+  match ty with
+  | Some (t :: l) => forallb (itype_eqb TObject) (t :: l)
+  | _ => false
+  end.
+
+Fixpoint ofrag (s : schema) : bool :=
+  match s with
+  | SBool _ => true
+  | SObj ty fmt enum cst nv sv ik items ai mni mxi uq props req ap mnp mxp allo anyo oneo no ref _ _ =>
+      nonum ty && is_none fmt && simple_enum enum && opt_all simple_json cst
+      && arr_absent ik ai mni mxi uq
+      && is_none allo && is_none anyo && is_none oneo && is_none no && is_none ref
+      && ap_bool ap && (obj_absent props req ap mnp mxp || all_object ty)
+      && forallb (fun kv => ofrag (snd kv)) props
+  end.
+
 (* instances without an empty array anywhere (finding C09-F5: conflicting `items` merge to never) *)
 Fixpoint no_empty_arr (v : json) : bool :=
   match v with
